@@ -29,6 +29,7 @@ func main() { hc.Main("C15", run) }
 type world struct {
 	paths   []*canvas.Path
 	short   *canvas.Path
+	spike   *canvas.Path
 	pathID  map[string]int
 	texts   []*canvas.Text
 	grads   []canvas.Gradient
@@ -206,6 +207,17 @@ func newWorld(c *hc.Ctx) *world {
 	p.LineTo(x+float64(1+c.Intn(3)), y)
 	add(p)
 	w.short = p
+	{
+		// a spike: a corner sharper than the miter limit of 4 (bevelled by MiterJoin, cut by MiterClipJoin)
+		sp := &canvas.Path{}
+		ang := c.Range(0, 2*math.Pi)
+		l, open := float64(4+c.Intn(12)), c.Range(0.02, 0.2)
+		sp.MoveTo(x, y)
+		sp.LineTo(x+l*math.Cos(ang), y+l*math.Sin(ang))
+		sp.LineTo(x+l*0.9*math.Cos(ang+open), y+l*0.9*math.Sin(ang+open))
+		add(sp)
+		w.spike = sp
+	}
 	if c.Chance(0.3) {
 		add(&canvas.Path{})
 	}
@@ -215,7 +227,7 @@ func newWorld(c *hc.Ctx) *world {
 	w.grads = []canvas.Gradient{canvas.NewLinearGradient(canvas.Point{}, canvas.Point{X: 10}), canvas.NewRadialGradient(canvas.Point{}, 1, canvas.Point{X: 1}, 5)}
 	w.pats = []canvas.Pattern{canvas.NewLineHatch(canvas.Black, 30, 2, 0.3), canvas.NewLineHatch(canvas.Red, 60, 3, 0.2)}
 	w.cappers = []canvas.Capper{canvas.ButtCap, canvas.RoundCap, canvas.SquareCap}
-	w.joiners = []canvas.Joiner{canvas.MiterJoin, canvas.BevelJoin, canvas.RoundJoin, canvas.ArcsJoin}
+	w.joiners = []canvas.Joiner{canvas.MiterJoin, canvas.BevelJoin, canvas.RoundJoin, canvas.ArcsJoin, canvas.MiterClipJoin}
 	return w
 }
 
@@ -345,8 +357,9 @@ type hist struct {
 	noCorr    string
 	failed    bool
 	aliasSeen map[string]bool
-	verdicts  []string // "V" lines: raw replay observations judged by the Lean specification
-	nonFinite bool     // a layer with a NaN/Inf matrix exists (already reported as a failure): matrix oracles are off
+	force     *canvas.Path // the next DrawPath draws this path first
+	verdicts  []string     // "V" lines: raw replay observations judged by the Lean specification
+	nonFinite bool         // a layer with a NaN/Inf matrix exists (already reported as a failure): matrix oracles are off
 }
 
 func (h *hist) op(human string, toks ...string) {
@@ -537,6 +550,9 @@ func (h *hist) drawPath(n int) {
 	names := []string{}
 	for i := range ps {
 		ps[i] = h.w.paths[c.Intn(len(h.w.paths))]
+		if i == 0 && h.force != nil {
+			ps[i], h.force = h.force, nil
+		}
 		if n > 1 && i == 0 && c.Bool() {
 			ps[i] = h.w.short // the short line first: a dash pattern may leave it without ink
 		}
@@ -717,6 +733,14 @@ func (h *hist) fitImage() {
 		rw = 0
 	}
 	fit := c.Intn(3)
+	if fit == 2 && c.Chance(0.3) {
+		// a very flat or very narrow rectangle: ImageCover would crop (almost) every row/column
+		if c.Bool() {
+			rw, rh = float64(20+c.Intn(20)), []float64{0.5, 1, 0.25}[c.Intn(3)]
+		} else {
+			rw, rh = []float64{0.5, 1, 0.25}[c.Intn(3)], float64(20+c.Intn(20))
+		}
+	}
 	rect := canvas.Rect{X0: x0, Y0: y0, X1: x0 + rw, Y1: y0 + rh}
 	h.op(fmt.Sprintf("FitImage(image %dx%d, rect %v, fit %d)", s[0], s[1], rect, fit), "FIM", hc.H(float64(s[0])), hc.H(float64(s[1])), hc.Hs(rect.X0, rect.Y0, rect.X1, rect.Y1), fmt.Sprint(fit))
 	w, ht := float64(s[0]), float64(s[1])
@@ -950,6 +974,27 @@ func (h *hist) canvasOp() {
 		}
 		h.checkReplay("Clip", sIdent, h.replay(canvas.Identity))
 	case k < 9:
+		if c.Chance(0.3) {
+			// a solid stroke with clipped miters around a spike, so that Fit meets corners beyond the limit
+			h.op("SetStrokeJoiner(#4)", "JOIN", "4")
+			h.ctx.SetStrokeJoiner(h.w.joiners[4])
+			h.st.style.Join = 4
+			h.op("SetDashes(0, [])", "DA", hc.H(0), "0")
+			h.ctx.SetDashes(0)
+			h.st.style.Off, h.st.style.Dashes = 0, []float64{}
+			h.op("SetStrokeColor({200 0 0 255})", "ST", paintTok(sPaint{200, 0, 0, 255, 0, 0}))
+			h.ctx.SetStrokeColor(color.RGBA{200, 0, 0, 255})
+			h.st.style.Stroke = sPaint{200, 0, 0, 255, 0, 0}
+			w := []float64{1, 2, 4}[c.Intn(3)]
+			h.op(fmt.Sprintf("SetStrokeWidth(%g)", w), "SW", hc.H(w))
+			h.ctx.SetStrokeWidth(w)
+			h.st.style.Width = w
+			h.checkState("spike scene setters")
+			h.force = h.w.spike
+			h.drawPath(1)
+			h.checkState("DrawPath")
+			c.Count("fit:spike-scene")
+		}
 		margin := []float64{0, 1, 2.5, 10}[c.Intn(4)]
 		h.op(fmt.Sprintf("Canvas.Fit(%g)", margin), "CF", hc.H(margin))
 		before := h.replay(canvas.Identity)
@@ -973,7 +1018,7 @@ func (h *hist) canvasOp() {
 // the path: miter tips at line-line corners (only when clearly below the miter limit of 4) and the
 // corners of square caps at the ends of open subpaths. Computed from the definition of the joins and
 // caps, for solid strokes only (with dashes a corner may fall into a gap).
-func (h *hist) overhang(k call) (miter, square [][2]float64) {
+func (h *hist) overhang(k call) (miter, square, clip [][2]float64) {
 	if k.kind != 'P' || !(k.sty.Stroke.has() && 0 < k.sty.Width) || len(k.sty.Dashes) != 0 {
 		return
 	}
@@ -1008,7 +1053,7 @@ func (h *hist) overhang(k call) (miter, square [][2]float64) {
 			}
 			return a, d, true
 		}
-		if k.sty.Join == 0 { // MiterJoin (limit 4)
+		if k.sty.Join == 0 || k.sty.Join == 4 { // MiterJoin / MiterClipJoin (limit 4)
 			for i := 0; i+1 < len(ls); i++ {
 				v, d0, ok0 := dir(ls[i], true)
 				_, d1, ok1 := dir(ls[i+1], false)
@@ -1019,18 +1064,30 @@ func (h *hist) overhang(k call) (miter, square [][2]float64) {
 				if math.Abs(cross) < 1e-3 {
 					continue
 				}
-				ch := math.Sqrt((1 + dot) / 2) // cos of half the turning angle
-				if ch < 1/3.5 {
-					continue // at or near the miter limit: the join may be bevelled
-				}
+				ch := math.Sqrt((1 + dot) / 2)                               // cos of half the turning angle
 				n0, n1 := hc.P2{X: d0.Y, Y: -d0.X}, hc.P2{X: d1.Y, Y: -d1.X} // right normals = outer side of a left turn
 				if cross < 0 {
 					n0, n1 = n0.Mul(-1), n1.Mul(-1)
 				}
 				u := n0.Add(n1)
 				u = u.Mul(1 / u.Len())
-				tip := v.Add(u.Mul(hw / ch))
-				miter = append(miter, [2]float64{tip.X, tip.Y})
+				switch {
+				case ch >= 1/3.5: // clearly below the miter limit of 4: the full tip at hw/cos
+					tip := v.Add(u.Mul(hw / ch))
+					miter = append(miter, [2]float64{tip.X, tip.Y})
+				case k.sty.Join == 4 && ch <= 1/4.5:
+					// miter-clip (SVG): the miter is cut perpendicular to the bisector at limit*hw from the
+					// vertex; the cut spans the wedge of the two outer offset lines, whose half opening
+					// angle at the tip (at hw/cos along the bisector) has tangent cos/sin
+					sh := math.Sqrt(1 - ch*ch)
+					wcut := (hw/ch - 4*hw) * ch / sh
+					perp := hc.P2{X: -u.Y, Y: u.X}
+					for _, sg := range []float64{1, -1} {
+						q := v.Add(u.Mul(4 * hw)).Add(perp.Mul(sg * wcut))
+						clip = append(clip, [2]float64{q.X, q.Y})
+					}
+				}
+				// otherwise at or near the limit: the join may be bevelled (MiterJoin) — within hw
 			}
 		}
 		if k.sty.Cap == 2 && !closed && len(ls) > 0 { // SquareCap
@@ -1114,7 +1171,7 @@ func (h *hist) checkFit(margin float64, before, after []call) {
 		}
 	}
 	for i, k := range after {
-		miter, square := h.overhang(k)
+		miter, square, clip := h.overhang(k)
 		m := mat(k.m)
 		tol := 1e-7 * (1 + math.Abs(W) + math.Abs(H) + math.Abs(m[0][2]) + math.Abs(m[1][2]))
 		outside := func(pts [][2]float64) (float64, float64, bool) {
@@ -1134,6 +1191,13 @@ func (h *hist) checkFit(margin float64, before, after []call) {
 		}
 		if x, y, bad := outside(miter); bad {
 			h.fail("fit-inside:miter-join-overhang", fmt.Sprintf("after Fit(%g) the canvas is %gx%g but the miter join of layer %d (path %q, stroke width %g) reaches (%g,%g)", margin, W, H, i, k.path.String(), k.sty.Width, x, y))
+			break
+		}
+		if len(clip) > 0 {
+			h.c.Count("fit:miter-clip-corners-checked")
+		}
+		if x, y, bad := outside(clip); bad {
+			h.fail("fit-inside:miter-clip-overhang", fmt.Sprintf("after Fit(%g) the canvas is %gx%g but the clipped miter of layer %d (path %q, stroke width %g, MiterClipJoin) reaches (%g,%g)", margin, W, H, i, k.path.String(), k.sty.Width, x, y))
 			break
 		}
 		if x, y, bad := outside(square); bad {
